@@ -569,6 +569,19 @@ def gen_lease(rng, knobs=None):
                 prog.append(['pump'])
         elif r < 0.3:
             prog.append(['lease', rng.choice([0, 1, 1, 2, 3, 5]), rng.choice([0, 50, 500, 1000, 1500, 2500, 3000, 86400000, 90061001, 2147483647])])
+            if rng.random() < k.get('p_lease_burst', 0.15):
+                # the publisher issues several leases in a row (the last one counts) - possibly while the server's transport is not
+                # accepting writes, so that several LEASE frames wait in its send queue together
+                blocked = rng.random() < 0.5
+                if blocked:
+                    prog.append(['gate_close', 's'])
+                for _ in range(rng.randint(1, 3)):
+                    prog.append(['lease', rng.choice([0, 1, 2, 3, 4, 5]), rng.choice([500, 1000, 2500, 3000])])
+                    if blocked and rng.random() < 0.5:
+                        prog.append(['settle'])
+                if blocked:
+                    prog.append(['settle'])
+                    prog.append(['gate_open', 's'])
             prog.append(['pump'] if rng.random() < 0.8 else ['settle'])
         elif r < 0.75:
             kind = rng.choice(['rr', 'rr', 'fnf', 'stream', 'channel'])
